@@ -2,9 +2,10 @@ import TunnoxModel.Driver.Util
 import TunnoxModel.Spec.C11
 /-!
 Line protocol for C11 (see harness/c11/main.go):
-  case: c <cmdType> p <0|1> f <conn#> s <snd> r <rcv> t <tok|-> b <0|1> m <ref> g <int> k <ref> d <ref>
+  case: c <cmdType> p <0|1> f <conn#> s <snd> r <rcv> t <tok|-> b <0|1> m <ref> g <int> k <ref> d <ref> [e <v> <keys>] [q <fault plan>]
         W [br <0|1>] conns <n> (<N|U|A><clientID>[@<node>])* maps <n> (<listen>:<target>:<s|t>:<a|i>)* codes <n> (<target>:<0|1>)* doms <n> (<owner>)*
-  obs:  <run> ~ <run>,  run = ret <0|1> rsp <n|o|f> view <…|-> chg <…|-> dlv <…|-> gone <…|->
+  obs:  <run> ~ <run>,  run = ret <0|1> rsp <n|o|f> view <…|-> chg <…|-> dlv <…|-> gone <…|-> [dig <…|->]
+        (dig = digests of delivered payloads / stored records; stripped before the comparison with the model)
 The driver runs the `.repaired` variant of the model.
 -/
 namespace Tunnox.Drv.C11
@@ -46,6 +47,10 @@ def section_ {α} (tag : String) (p : String → Option α) : List String → Op
       pure (ys, rest)
   | _ => none
 
+/-- `Gen.c11.identityKeys` in the harness' notation -/
+def keysStr : String :=
+  ",".intercalate (Gen.c11.identityKeys.map (fun kv => kv.1 ++ (if kv.2 then ":s" else ":n")))
+
 structure Case where
   w : World
   f : Nat
@@ -53,7 +58,16 @@ structure Case where
 
 def parseCase' : List String → Option Case
   | "c" :: ct :: "p" :: p :: "f" :: f :: "s" :: s :: "r" :: r :: "t" :: t :: "b" :: b :: "m" :: m :: "g" :: g ::
-    "k" :: k :: "d" :: d :: "W" :: rest0 => do
+    "k" :: k :: "d" :: d :: rest00 => do
+    -- optional `e <foreign value> <key:n|key:s,…>`: extra identity-like keys added to the body
+    let extra ← (match rest00 with | "e" :: v :: _ :: _ => v.toNat? | _ => some 0)
+    let keys := (match rest00 with | "e" :: _ :: ks :: _ => ks | _ => "")
+    let rest01 := (match rest00 with | "e" :: _ :: _ :: r => r | r => r)
+    -- optional `q <fault plan>`: which reads of the named mapping's record fail
+    let faults ← (match rest01 with | "q" :: v :: _ => v.toNat? | _ => some 0)
+    let rest0 ← (match rest01 with | "q" :: _ :: "W" :: r => some r | "W" :: r => some r | _ => none)
+    -- the harness must have used exactly the keys the current source yields
+    if extra != 0 && keys != keysStr then none
     let bridge := (match rest0 with | "br" :: "1" :: _ => true | _ => false)
     let rest := (match rest0 with | "br" :: _ :: r => r | r => r)
     let (conns, rest) ← section_ "conns" parseConn rest
@@ -64,7 +78,7 @@ def parseCase' : List String → Option Case
     let f ← f.toNat?
     if f ≥ conns.length then none
     pure ⟨⟨conns, maps, codes, doms, bridge⟩, f,
-      ⟨← ct.toNat?, p == "1", s, r, t, b == "1", ← m.toInt?, ← g.toInt?, ← k.toInt?, ← d.toInt?, 0⟩⟩
+      ⟨← ct.toNat?, p == "1", s, r, t, b == "1", ← m.toInt?, ← g.toInt?, ← k.toInt?, ← d.toInt?, 0, extra, faults⟩⟩
   | _ => none
 
 /-- `x …` marks an excluded point of the correspondence (ambiguous default DNS target: the implementation's choice
@@ -151,9 +165,16 @@ def runModel (ts : List String) : String :=
   | some k => runStr (exec .repaired k.w k.f k.c) ++ " ~ " ++ runStr (exec .repaired k.w k.f k.c.strip)
   | none => "bad-case"
 
+/-- `<run> [dig <d,…|->]` -/
+def parseRunDig (ts : List String) : Option (Run × List String) :=
+  match ts.takeWhile (· != "dig"), (ts.dropWhile (· != "dig")).drop 1 with
+  | r, [] => (parseRun r).map (·, [])
+  | r, [d] => (parseRun r).map (·, listOf d)
+  | _, _ => none
+
 def runHolds (caseToks obsToks : List String) : String :=
-  match parseCase caseToks, parseRun (obsToks.takeWhile (· != "~")), parseRun ((obsToks.dropWhile (· != "~")).drop 1) with
-  | some k, some a, some b => boolStr (holds k.w k.f k.c a b)
+  match parseCase caseToks, parseRunDig (obsToks.takeWhile (· != "~")), parseRunDig ((obsToks.dropWhile (· != "~")).drop 1) with
+  | some k, some a, some b => boolStr (holdsObs k.w k.f k.c ⟨a.1, b.1, a.2, b.2⟩)
   | _, _, _ => "false"
 
 end Tunnox.Drv.C11
